@@ -108,6 +108,39 @@ BadPresenceAt(j) ==
                ELSE base[key]]
     IN  Item("presence_malformed", MkDoc(f), j)
 
+\* ---- A3: members that are NOT transaction fields -------------------------------------------------
+\* names other tools use for the same or a related thing (JSON-RPC transaction objects, other libraries, other case
+\* conventions), each with a value that would change the result if it were used in the place of the real field: a
+\* transaction is made of the specified members only
+ForeignKeys == <<"input", "from", "hash", "type", "gasLimit", "gas_limit", "gas_price", "GasPrice", "gasprice", "chain_id", "chainID", "ChainId",
+                 "networkId", "v", "r", "s", "yParity", "Nonce", "NONCE", "Data", "calldata", "To", "recipient", "amount", "Value", "access_list",
+                 "accesslist", "maxFeePerBlobGas", "blobVersionedHashes", "max_fee_per_gas", "maxPriorityFee", "tip", "nonce ", " nonce", "", "__proto__">>
+ForeignVals == <<NStr("0xa9059cbb"), NStr("0x1fcff193d804dc56ad6123fcf9098f8b53520566"), NNum("7"), NStr("0x2"), NNull, NArr(<<>>), NBool(TRUE)>>
+NForeign == Len(ForeignKeys) * 3
+ForeignAt(j) ==
+  LET name == ForeignKeys[1 + ((j - 1) % Len(ForeignKeys))]
+      kind == Kinds[1 + ((j - 1) \div Len(ForeignKeys))]
+      val  == ForeignVals[1 + ((j * 5 + (j - 1) \div Len(ForeignKeys)) % Len(ForeignVals))]
+      d    == MkDoc(Default(kind, <<14, j % 9>>))
+      \* before the real members, after them, or in the middle
+      at   == IF j % 3 = 0 THEN 0 ELSE IF j % 3 = 1 THEN Len(d.v) ELSE Len(d.v) \div 2
+  IN  Item("foreign_members", NObj(SubSeq(d.v, 1, at) \o << <<name, val>> >> \o SubSeq(d.v, at + 1, Len(d.v))), j)
+
+\* ---- A4: REPEATED keys --------------------------------------------------------------------
+\* every member of a well-formed document once more, before or after the first occurrence, with another well-formed value,
+\* a negative, a fractional, an oversized, an empty, a null value: the result is refused or is the transaction of the first
+\* or of the last occurrence - never a third thing
+DupVals == <<NHexQty(<<9>>), NNum("-1"), NNum("-1.0"), NNum("1.5"), NStr(""), NNull, NStr("0x1" \o Utf8ToStr(Rep(64, 48))), NNum("7"), NStr("-0x1"), NArr(<<>>)>>
+NDup == 3 * 10 * Len(DupVals)
+DupAt(j) ==
+  LET kind == Kinds[1 + ((j - 1) % 3)]
+      d    == MkDoc(Default(kind, <<15, j % 5>>))
+      m    == 1 + (((j - 1) \div 3) % Len(d.v))                   \* the member that is repeated
+      v    == DupVals[1 + (((j - 1) \div 30) % Len(DupVals))]
+      pair == <<d.v[m][1], v>>
+      doc  == IF j % 2 = 0 THEN NObj(d.v \o <<pair>>) ELSE NObj(<<pair>> \o d.v)
+  IN  Item("repeated_keys", doc, j)
+
 \* ---- B: boundary values in every numeric slot of every kind ---------------
 Boundary == <<<<>>, <<1>>, <<127>>, <<128>>, <<255>>, <<1, 0>>, Rep(8, 255), <<1>> \o Zeros(8),
               <<128>> \o Zeros(31), Rep(32, 255)>>
